@@ -60,6 +60,7 @@ class Contract:
         self.modifies = getattr(cls, "modifies", ())
         self.lemmas_for_post = getattr(cls, "hints", None)
         self.defaults = getattr(cls, "defaults", {})
+        self.value = getattr(cls, "value", None)  # functional contract: the result as an expression of the arguments
         self.replay = getattr(cls, "replay", None)  # model -> concrete call arguments
         self.canary = getattr(cls, "canary", True)
 
@@ -261,6 +262,11 @@ class SymCtx:
     def in_set(self, v, s):
         return BoolV(B(s.contains(v)))
 
+    def map(self, seq, f):
+        if isinstance(seq, ListV):
+            seq = seq.snapshot()
+        return SeqV(seq.n, lambda i: (lambda r: r if isinstance(r, V) else IntV(Z(r)))(f(seq.at(i))), "tuple")
+
     def member(self, v, seq):
         """v occurs in the sequence"""
         j = fresh("mb")
@@ -427,6 +433,9 @@ class RunCtx:
 
     def in_set(self, v, s):
         return v in s
+
+    def map(self, seq, f):
+        return [f(x) for x in seq]
 
     def member(self, v, seq):
         return v in list(seq)
